@@ -9,8 +9,19 @@
   is the last block's (`lastTr`), as in the code. Side conditions: the blocks are pairwise different texts
   (`Nodup`, else the later one replaces the earlier), and the header matches itself with identity bindings only
   (`selfIdentity`, executable).
+
+  Last part (`C03_flat_*`, proofs in `Lemmas/FlatAccept.lean`): ARBITRARY invocations without nested headers (any number
+  of buckets; within a bucket bounds in any order, extra and repeated bounds, several associated types).
+  `C03_flat_accepts`: every bucket `distinguishedB` (blocks pairwise differ by bindings of an associated type, under a
+  key every block bounds, of which neither generalises the other) ⇒ accepted, one family per bucket;
+  `C03_flat_accepts_nonunifiable`: the same from pairwise NON-UNIFIABLE payloads; `C03_flat_acceptance_exact`:
+  accepted ⇔ every bucket `separatedB` (executable, order-free form of the candidate filter);
+  `C03_flat_rejects_indistinguishable` / `C03_flat_rejects_first`: rejection, and which header is reported;
+  counterexamples to natural weakenings (`C03_flat_nonshared_key_counterexample`, `C03_flat_lone_block_counterexample`,
+  `C03_flat_generalising_payload_counterexample`).
 -/
 import DisjointImpls.Lemmas.GroupLemmas
+import DisjointImpls.Lemmas.FlatAccept
 import DisjointImpls.Props.C11
 namespace DI
 
@@ -171,5 +182,519 @@ example :
       (addRows ((mkBlk (Ex11.block2 "GroupA" "X")).rs.map (fun r => [r])) [mkBlk (Ex11.block2 "GroupB" "Y")])).length = 2 := by
     with_unfolding_all decide
   exact ⟨_, _, b1, b2, hu, hlen⟩
+
+/-! ## Arbitrary invocations without nested headers (proofs in `Lemmas/FlatAccept.lean`, on top of `Lemmas/FlatOrder.lean`)
+
+  Side conditions (executable, evaluated per test case): `noNesting items` (no header generalises a different one) and
+  `flatWF items` (every header matches itself with identity bindings only; every trait path in the bounds can be
+  compared by `TraitBound::eq`). Buckets = the blocks grouped by header (`mkBuckets`). Within a bucket the blocks may
+  list their bounds in any order, have extra bounds the others lack, repeat a bound, and bind several associated types.
+
+  * `distinguishedB blks` (the documented fragment): some key that every block of the bucket bounds has a binding, and
+    every two different blocks bind one associated type under a key that EVERY block of the bucket bounds to payloads
+    of which neither generalises the other (`supYes p q = false ∧ supYes q p = false`; non-unifiable payloads satisfy
+    it, `C03_nonunifiable_distinguishes`). `C03_distinguishedB_spec` spells it out.
+  * `separatedB blks` (exact): some such key has a binding, and for no two different blocks `bi`, `bj` does the row of
+    `bi` generalise the row of `bj` on all columns the family keeps (`genPair_fa`). -/
+
+/-- **Acceptance of the documented fragment.** An invocation without nested headers in which the blocks of every
+    bucket pairwise differ by bindings of a shared associated type of which neither generalises the other
+    (`distinguishedB`) is accepted. The result has one family per bucket, in bucket order, with the bucket's header
+    and exactly the bucket's blocks as members (in bucket order); the keys of a family are the keys of its last
+    member that every member bounds and for which some member has a binding, and the row of a member under a key is
+    the member's own folded row. -/
+theorem C03_flat_accepts (items : List T) (hn : noNesting items = true) (hwf : flatWF items = true)
+    (hd : ∀ bk ∈ mkBuckets (items.map mkBlk), distinguishedB bk.2 = true) :
+    ∃ groups, parseGroups items = .ok groups ∧
+      groups.map (fun e => (e.1, e.2.2)) = mkBuckets (items.map mkBlk) ∧
+      ∀ e ∈ groups, ∃ l, e.2.2.getLast? = some l ∧
+        ∀ kr, kr ∈ e.2.1.bounds ↔
+          (∃ r, (kr.1, r) ∈ otherFold l) ∧ hasKey e.2.2 kr.1 = true ∧ kr.2 = e.2.2.map (fun b => rowD b kr.1) ∧
+            ∃ b ∈ e.2.2, rowD b kr.1 ≠ [] := by
+  have hms : msPairs ((mkBuckets (items.map mkBlk)).map (·.1)) = [] := by simpa [noNesting] using hn
+  have hwf0 := flatWF0_of_flatWF hwf
+  obtain ⟨g, hg⟩ := (flat_ok_iff_separated_fa items hms hwf).2 (fun bk hbk => separatedB_of_distinguishedB (hd bk hbk))
+  refine ⟨g, hg, flat_groups_shape_fa hg hms hwf0, fun e he => ?_⟩
+  obtain ⟨_, _, h3⟩ := flat_family_char hg hms hwf0 e he
+  exact h3
+
+/-- the same under the single executable precondition
+    `flatAcceptPre items = noNesting items && flatWF items && flatDistinguished items` -/
+def flatAcceptPre (items : List T) : Bool := noNesting items && flatWF items && flatDistinguished items
+
+theorem C03_flat_accepts_exec (items : List T) (hpre : flatAcceptPre items = true) :
+    ∃ groups, parseGroups items = .ok groups ∧ groups.map (fun e => (e.1, e.2.2)) = mkBuckets (items.map mkBlk) := by
+  simp only [flatAcceptPre, flatDistinguished, Bool.and_eq_true, List.all_eq_true] at hpre
+  obtain ⟨g, h1, h2, _⟩ := C03_flat_accepts items hpre.1.1 hpre.1.2 hpre.2
+  exact ⟨g, h1, h2⟩
+
+/-- under the weaker side condition `flatWF0` (headers on which the matcher panics or answers no are allowed) the
+    same holds provided no bucket makes the search panic (`bucketPanics`: two or more blocks under a header that does
+    not match itself) -/
+theorem C03_flat_accepts_weak (items : List T) (hn : noNesting items = true) (hwf : flatWF0 items = true)
+    (hd : ∀ bk ∈ mkBuckets (items.map mkBlk), bucketPanics bk = false ∧ distinguishedB bk.2 = true) :
+    ∃ groups, parseGroups items = .ok groups ∧ groups.map (fun e => (e.1, e.2.2)) = mkBuckets (items.map mkBlk) := by
+  have hms : msPairs ((mkBuckets (items.map mkBlk)).map (·.1)) = [] := by simpa [noNesting] using hn
+  obtain ⟨g, hg⟩ := (flat_ok_iff_separated0_fa items hms hwf).2
+    (fun bk hbk => ⟨(hd bk hbk).1, separatedB_of_distinguishedB (hd bk hbk).2⟩)
+  exact ⟨g, hg, flat_groups_shape_fa hg hms hwf⟩
+
+/-- what `distinguishedB` says (for blocks whose trait paths can be compared, `wfBlk`): some key every block bounds
+    has a binding, and for every two different blocks `bi`, `bj` there are a key `k` of `bi` that every block of the
+    bucket bounds and an associated-type identifier `a` such that `bi` binds `a` under `k` to `p`, `bj` binds `a`
+    under `k` to `q` (`cell`: the block's folded row for the key, looked up at `a`), and neither of `p`, `q`
+    generalises the other -/
+theorem C03_distinguishedB_spec (blks : List Blk) (hw : ∀ b ∈ blks, wfBlk b = true) :
+    distinguishedB blks = true ↔ hasColumn_fa blks = true ∧
+      ∀ bi ∈ blks, ∀ bj ∈ blks, bi ≠ bj → ∃ e ∈ otherFold bi, hasKey blks e.1 = true ∧
+        ∃ a p q, cell bi (e.1, a) = some p ∧ cell bj (e.1, a) = some q ∧ supYes p q = false ∧ supYes q p = false :=
+  distinguishedB_spec_fa hw
+
+/-- for a bucket with two different blocks the pair condition alone is `distinguishedB` (the first conjunct only
+    matters for a lone block, `C03_flat_lone_block_counterexample`) -/
+theorem C03_distinguishedB_of_pairs (blks : List Blk) (bi bj : Blk) (hbi : bi ∈ blks) (hbj : bj ∈ blks) (hne : bi ≠ bj)
+    (h : distPairs_fa blks = true) : distinguishedB blks = true := by
+  simp only [distinguishedB, Bool.and_eq_true]
+  exact ⟨hasColumn_of_distPairs_fa hbi hbj hne h, h⟩
+
+/-- **Non-unifiable payloads are distinguished.** A positive, non-lenient answer of the matcher is a unifier
+    (`q` is an instance of `p`, modulo presentation). Hence two payloads without a common instance — the parameters of
+    the two sides instantiated separately, `Unifiable_fa` — bound by two blocks to the same associated type under the
+    same key satisfy the cell condition of `distinguishedB`. Side condition `unifPre_fa p q` (executable): both
+    payloads are well-formed trees (`wf`), their ignored children face each other (`ignFaces`, both directions), and
+    the matcher does not answer through one of its deliberately lenient arms (`supExact_fa`, both directions). -/
+theorem C03_nonunifiable_distinguishes (bi bj : Blk) (kx : BKey × String) (p q : T) (hi : cell bi kx = some p)
+    (hj : cell bj kx = some q) (hpre : unifPre_fa p q = true)
+    (hnu : ¬ ∃ θ₁ θ₂ : Subst, erase (inst θ₁ p) = erase (inst θ₂ q)) : sepCell_fa bi bj kx = true :=
+  sepCell_of_not_unifiable_fa hi hj hpre hnu
+
+/-- the lemma behind it: an exact positive answer `sup p q = .yes σ false` on well-formed trees makes `q` an instance
+    of `p`, so `p` and `q` are unifiable -/
+theorem C03_sup_yes_unifiable (p q : T) (σ : Subst) (hp : wf p = true) (hq : wf q = true)
+    (hf : ignFaces p (stripTop q) = true) (h : sup p q = .yes σ false) :
+    ∃ θ₁ θ₂ : Subst, erase (inst θ₁ p) = erase (inst θ₂ q) :=
+  unifiable_of_sup_fa hp hq hf h
+
+/-- the restriction to exact answers (`lossy = false`) in `C03_sup_yes_unifiable` cannot be dropped: the anonymous
+    lifetime `'_` "generalises" `'a` through a deliberately lenient arm of the matcher (`sup … = .yes [] true`), both
+    trees are well-formed and closed, and they have no common instance modulo presentation — which is why
+    `unifPre_fa` asks for `supExact_fa` -/
+theorem C03_sup_yes_unifiable_lossy_counterexample :
+    let p : T := .node "Lifetime" [] [.node "Ident" ["_"] []]
+    let q : T := .node "Lifetime" [] [.node "Ident" ["a"] []]
+    sup p q = .yes [] true ∧ wf p = true ∧ wf q = true ∧ ignFaces p (stripTop q) = true ∧
+      ¬ ∃ θ₁ θ₂ : Subst, erase (inst θ₁ p) = erase (inst θ₂ q) := by
+  intro p q
+  exact ⟨by decide, by decide, by decide, by decide, not_unifiable_of_closed_fa (by decide) (by decide) (by decide)⟩
+
+/-- **Acceptance, exactly.** An invocation without nested headers is accepted iff every bucket is separated
+    (`separatedB`, executable and independent of the order of the blocks): some key that every block bounds has a
+    binding, and no block's row generalises another block's row on the columns the family keeps. -/
+theorem C03_flat_acceptance_exact (items : List T) (hn : noNesting items = true) (hwf : flatWF items = true) :
+    (∃ groups, parseGroups items = .ok groups) ↔ ∀ bk ∈ mkBuckets (items.map mkBlk), separatedB bk.2 = true :=
+  flat_ok_iff_separated_fa items (by simpa [noNesting] using hn) hwf
+
+/-- the documented fragment is inside the exact condition (a boolean implication, no side condition) -/
+theorem C03_distinguished_separated (blks : List Blk) (h : distinguishedB blks = true) : separatedB blks = true :=
+  separatedB_of_distinguishedB h
+
+/-- `separatedB` is the candidate filter (`accOK`: after pruning the keys without a binding a key is left and
+    `is_overlapping` is false) of the single candidate of the bucket -/
+theorem C03_separatedB_is_filter (blks : List Blk) (hne : blks ≠ []) (hw : ∀ b ∈ blks, wfBlk b = true) (hnd : blks.Nodup) :
+    accOK blks = separatedB blks :=
+  accOK_eq_separatedB hne hw hnd
+
+/-- **Rejection of indistinguishable blocks** (the macro half of C04 for inputs without nested headers): if two
+    different blocks `bi`, `bj` of some bucket are such that the row of `bi` generalises the row of `bj` on all shared
+    columns (`genPair_fa`: under every key of `bi` that every block of the bucket bounds, every associated type bound
+    by `bi` is bound by `bj` to a payload that `bi`'s payload generalises — in particular if both bind the same
+    payloads, or if `bi` has no binding under a shared key at all), the macro rejects the invocation with "Unable to
+    form impl group" for the header of a bucket that is not separated. -/
+theorem C03_flat_rejects_indistinguishable (items : List T) (hn : noNesting items = true) (hwf : flatWF items = true)
+    (bk : T × List Blk) (hbk : bk ∈ mkBuckets (items.map mkBlk)) (bi bj : Blk) (hbi : bi ∈ bk.2) (hbj : bj ∈ bk.2)
+    (hne : bi ≠ bj) (hg : genPair_fa bk.2 bi bj = true) :
+    ∃ id, parseGroups items = .unableToForm id ∧
+      ∃ bk' ∈ mkBuckets (items.map mkBlk), bk'.1 = id ∧ separatedB bk'.2 = false :=
+  flat_rejects_fa items (by simpa [noNesting] using hn) hwf hbk (not_separated_of_genPair_fa hbi hbj hne hg)
+
+/-- … and of a bucket in which no key that every block bounds has a binding -/
+theorem C03_flat_rejects_no_binding (items : List T) (hn : noNesting items = true) (hwf : flatWF items = true)
+    (bk : T × List Blk) (hbk : bk ∈ mkBuckets (items.map mkBlk)) (hc : hasColumn_fa bk.2 = false) :
+    ∃ id, parseGroups items = .unableToForm id ∧
+      ∃ bk' ∈ mkBuckets (items.map mkBlk), bk'.1 = id ∧ separatedB bk'.2 = false :=
+  flat_rejects_fa items (by simpa [noNesting] using hn) hwf hbk (by simp [separatedB, hc])
+
+/-- **The semantic form of C03 for inputs without nested headers.** If in every bucket some key that every block
+    bounds has a binding and every two different blocks bind one associated type, under a key that every block of
+    the bucket bounds, to payloads WITHOUT A COMMON INSTANCE (`¬ ∃ θ₁ θ₂, erase (inst θ₁ p) = erase (inst θ₂ q)`, a
+    genuine semantic assumption; plus the executable `unifPre_fa p q`: well-formed payloads on which the matcher
+    does not take a lenient arm), the invocation is accepted, with one family per bucket. -/
+theorem C03_flat_accepts_nonunifiable (items : List T) (hn : noNesting items = true) (hwf : flatWF items = true)
+    (h : ∀ bk ∈ mkBuckets (items.map mkBlk), hasColumn_fa bk.2 = true ∧
+      ∀ bi ∈ bk.2, ∀ bj ∈ bk.2, bi ≠ bj → ∃ e ∈ otherFold bi, hasKey bk.2 e.1 = true ∧
+        ∃ a p q, cell bi (e.1, a) = some p ∧ cell bj (e.1, a) = some q ∧ unifPre_fa p q = true ∧
+          ¬ ∃ θ₁ θ₂ : Subst, erase (inst θ₁ p) = erase (inst θ₂ q)) :
+    ∃ groups, parseGroups items = .ok groups ∧ groups.map (fun e => (e.1, e.2.2)) = mkBuckets (items.map mkBlk) := by
+  obtain ⟨g, h1, h2, _⟩ := C03_flat_accepts items hn hwf (fun bk hbk => by
+    obtain ⟨_, _, _, hw, _⟩ := buckets_facts items (flatWF0_of_flatWF hwf) bk hbk
+    exact distinguishedB_of_nonunifiable_fa hw (h bk hbk).1 (h bk hbk).2)
+  exact ⟨g, h1, h2⟩
+
+/-- closed (parameter-free) payloads that differ modulo presentation have no common instance -/
+theorem C03_closed_payloads_nonunifiable (p q : T) (hp : closed p = true) (hq : closed q = true)
+    (h : erase p ≠ erase q) : ¬ ∃ θ₁ θ₂ : Subst, erase (inst θ₁ p) = erase (inst θ₂ q) :=
+  not_unifiable_of_closed_fa hp hq h
+
+/-- an executable sufficient condition for "no common instance": a constructor clash (`clash_fa p q`: at some position
+    reached through rigid nodes on both sides — not a transparent wrapper, not an ignored child, not a lone type
+    parameter in generic-argument position — the two trees have rigid nodes of different kinds, atoms or numbers of
+    children). Payloads with parameters are allowed. -/
+theorem C03_clash_nonunifiable (p q : T) (h : clash_fa p q = true) :
+    ¬ ∃ θ₁ θ₂ : Subst, erase (inst θ₁ p) = erase (inst θ₂ q) :=
+  not_unifiable_of_clash_fa h
+
+/-- the two conditions are order-free: they only depend on the set of blocks of the bucket -/
+theorem C03_flat_conditions_order_free (blks blks' : List Blk) (hp : blks.Perm blks') :
+    distinguishedB blks = distinguishedB blks' ∧ separatedB blks = separatedB blks' :=
+  ⟨distinguishedB_mem_congr_fa (fun _ => hp.mem_iff), separatedB_mem_congr_fa (fun _ => hp.mem_iff)⟩
+
+/-- the precondition of `C03_flat_accepts_exec` holds for every permutation of the blocks if it holds for one (so the
+    acceptance of every order of a documented invocation follows from the theorem itself) -/
+theorem C03_flat_accept_pre_order_free (items items' : List T) (hp : items.Perm items')
+    (hpre : flatAcceptPre items = true) : flatAcceptPre items' = true := by
+  simp only [flatAcceptPre, Bool.and_eq_true] at hpre ⊢
+  obtain ⟨h1, h2⟩ := flat_hyps_perm hp (by simpa [noNesting] using hpre.1.1) hpre.1.2
+  exact ⟨⟨by simpa [noNesting] using h1, h2⟩, flatDistinguished_perm_fa hp hpre.2⟩
+
+/-- what `genPair_fa` (the hypothesis of `C03_flat_rejects_indistinguishable`) says: under every key of `bi` that
+    every block of the bucket bounds, every associated type `bi` binds is bound by `bj` to a payload that `bi`'s
+    payload generalises (`genCell`: one position of `is_overlapping`'s row comparison) -/
+theorem C03_genPair_spec (blks : List Blk) (bi bj : Blk) :
+    genPair_fa blks bi bj = true ↔ ∀ e ∈ otherFold bi, hasKey blks e.1 = true → ∀ xp ∈ e.2,
+      genCell (cell bi (e.1, xp.1)) (cell bj (e.1, xp.1)) = true :=
+  genPair_iff_fa
+
+/-- … and the header in the error message is that of the FIRST bucket (in the order of first occurrence of the
+    headers) that is not separated -/
+theorem C03_flat_rejects_first (items : List T) (hn : noNesting items = true) (hwf : flatWF items = true)
+    (pre post : List (T × List Blk)) (bk : T × List Blk) (hsplit : mkBuckets (items.map mkBlk) = pre ++ bk :: post)
+    (hpre : ∀ b ∈ pre, separatedB b.2 = true) (hbk : separatedB bk.2 = false) :
+    parseGroups items = .unableToForm bk.1 :=
+  flat_rejects_first_fa items (by simpa [noNesting] using hn) hwf pre post bk hsplit hpre hbk
+
+namespace Ex11
+/-- `impl<T: bounds> Kita for T {}` -/
+def blockOf_fa (bs : List T) : T := implOf [tyParam "T" bs] tT
+/-- `Dispatch<Group = p>` for an arbitrary payload type `p` -/
+def dispatchTy_fa (p : T) : T :=
+  path [.node "PathSegment" [] [.node "Ident" ["Dispatch"] [], .node "PathArguments::AngleBracketed" [] [.node "Ign" [] [leaf "None"],
+    .node "List" [] [.node "GenericArgument::AssocType" [] [.node "AssocType" [] [.node "Ident" ["Group"] [], leaf "None", p]]]]]]
+/-- three blocks with the same header: the second one lists its bounds in the other order and the third one lacks the
+    `Other` bound, so the family keeps the single key `T: Dispatch` -/
+def flat3_fa : List T :=
+  [blockOf_fa [traitBound (dispatch "GroupA"), traitBound (otherTr "X")],
+   blockOf_fa [traitBound (otherTr "Y"), traitBound (dispatch "GroupB")],
+   blockOf_fa [traitBound (dispatch "GroupC")]]
+/-- two buckets (`Vec<T>` and `Box<T>`), blocks interleaved -/
+def flat2x2_fa : List T :=
+  [blockSelf "GroupA" (vecOf tT), blockSelf "GroupA" (boxOf tT), blockSelf "GroupB" (vecOf tT), blockSelf "GroupB" (boxOf tT)]
+/-- three blocks with two keys each; different pairs are distinguished by different keys -/
+def flat3keys_fa : List T := [block2 "GroupA" "X", block2 "GroupB" "Y", block2 "GroupA" "Y"]
+/-- the first two blocks differ only on `T: Other<Kind = …>`, a key the third block does not bound -/
+def nonshared_fa : List T :=
+  [blockOf_fa [traitBound (dispatch "GroupA"), traitBound (otherTr "X")],
+   blockOf_fa [traitBound (otherTr "Y"), traitBound (dispatch "GroupA")],
+   blockOf_fa [traitBound (dispatch "GroupC")]]
+/-- `impl<T: Dispatch<Group = Vec<U>>, U> Kita for T {}` and `impl<T: Dispatch<Group = Vec<u32>>> Kita for T {}` -/
+def generalising_fa : List T :=
+  [implOf [tyParam "T" [traitBound (dispatchTy_fa (vecOf (tyPath [seg "U"])))], tyParam "U" []] tT,
+   implOf [tyParam "T" [traitBound (dispatchTy_fa (vecOf (tyPath [seg "u32"])))]] tT]
+/-- `impl<T: Dispatch<Group = GroupA> + Other> Kita for T {}` and `impl<T: Dispatch + Other<Kind = X>> Kita for T {}` -/
+def wildcards_fa : List T :=
+  [blockOf_fa [traitBound (dispatch "GroupA"), traitBound (path [seg "Other"])],
+   blockOf_fa [traitBound (path [seg "Dispatch"]), traitBound (otherTr "X")]]
+end Ex11
+
+section FlatAcceptExamples
+open Ex11
+set_option maxRecDepth 1000000
+
+/-- non-vacuity of `C03_flat_accepts`: the README example satisfies every hypothesis (one bucket, two blocks) -/
+theorem C03_flat_readme_pre : flatAcceptPre [blockFor "GroupA", blockFor "GroupB"] = true := by
+  with_unfolding_all decide
+
+example : ∃ groups, parseGroups [blockFor "GroupA", blockFor "GroupB"] = .ok groups ∧
+    groups.map (fun e => (e.1, e.2.2)) = mkBuckets ([blockFor "GroupA", blockFor "GroupB"].map mkBlk) :=
+  C03_flat_accepts_exec _ C03_flat_readme_pre
+
+/-- non-vacuity: three blocks with the keys in different orders and an extra, non-shared bound (the example of
+    `C05_flat_example_*`); not covered by `C03_single_bucket_accepts` / `C03_multi_key_accepts` (not aligned) -/
+theorem C03_flat_three_blocks_pre :
+    noNesting flat3_fa = true ∧ flatWF flat3_fa = true ∧
+      (∀ bk ∈ mkBuckets (flat3_fa.map mkBlk), distinguishedB bk.2 = true) ∧
+      (mkBuckets (flat3_fa.map mkBlk)).map (fun bk => bk.2.length) = [3] := by
+  refine ⟨by with_unfolding_all decide, by with_unfolding_all decide, ?_, by with_unfolding_all decide⟩
+  have : flatDistinguished flat3_fa = true := by with_unfolding_all decide
+  simpa [flatDistinguished, List.all_eq_true] using this
+
+example : ∃ groups, parseGroups flat3_fa = .ok groups ∧
+    groups.map (fun e => (e.1, e.2.2)) = mkBuckets (flat3_fa.map mkBlk) := by
+  obtain ⟨h1, h2, h3, _⟩ := C03_flat_three_blocks_pre
+  obtain ⟨g, hg, hs, _⟩ := C03_flat_accepts flat3_fa h1 h2 h3
+  exact ⟨g, hg, hs⟩
+
+/-- non-vacuity: a two-bucket input with interleaved blocks, and three blocks with two keys each where different
+    pairs are distinguished by different keys -/
+theorem C03_flat_more_pre :
+    flatAcceptPre flat2x2_fa = true ∧ (mkBuckets (flat2x2_fa.map mkBlk)).map (fun bk => bk.2.length) = [2, 2] ∧
+    flatAcceptPre flat3keys_fa = true ∧ (mkBuckets (flat3keys_fa.map mkBlk)).map (fun bk => bk.2.length) = [3] := by
+  refine ⟨by with_unfolding_all decide, by with_unfolding_all decide, by with_unfolding_all decide,
+    by with_unfolding_all decide⟩
+
+example : (∃ g, parseGroups flat2x2_fa = .ok g ∧ g.length = 2) ∧ (∃ g, parseGroups flat3keys_fa = .ok g ∧ g.length = 1) := by
+  obtain ⟨h1, l1, h2, l2⟩ := C03_flat_more_pre
+  obtain ⟨g1, hg1, hs1⟩ := C03_flat_accepts_exec _ h1
+  obtain ⟨g2, hg2, hs2⟩ := C03_flat_accepts_exec _ h2
+  refine ⟨⟨g1, hg1, ?_⟩, ⟨g2, hg2, ?_⟩⟩
+  · have := congrArg List.length hs1
+    have l1' := congrArg List.length l1
+    simp only [List.length_map] at this l1'
+    rw [this, l1']; rfl
+  · have := congrArg List.length hs2
+    have l2' := congrArg List.length l2
+    simp only [List.length_map] at this l2'
+    rw [this, l2']; rfl
+
+/-- **Counterexample: the distinguishing key must be bounded by EVERY block of the bucket.** The first two of the
+    three blocks differ (only) by their bindings `Kind = X` / `Kind = Y` under `T: Other<…>`, a key the third block
+    does not bound; every other pair differs on `T: Dispatch<Group = …>`. The weakened condition
+    `distinguishedAnyKeyB_fa` (distinguishing key not required to be shared by all blocks) holds, but the family only
+    keeps keys every member bounds, the first two rows coincide there (`Group = GroupA`), and the macro rejects. -/
+theorem C03_flat_nonshared_key_counterexample :
+    noNesting nonshared_fa = true ∧ flatWF nonshared_fa = true ∧
+    (mkBuckets (nonshared_fa.map mkBlk)).all (fun bk => distinguishedAnyKeyB_fa bk.2) = true ∧
+    (mkBuckets (nonshared_fa.map mkBlk)).all (fun bk => distinguishedB bk.2) = false ∧
+    ∃ id, parseGroups nonshared_fa = .unableToForm id := by
+  have hn : noNesting nonshared_fa = true := by with_unfolding_all decide
+  have hwf : flatWF nonshared_fa = true := by with_unfolding_all decide
+  refine ⟨hn, hwf, by with_unfolding_all decide, by with_unfolding_all decide, ?_⟩
+  -- rejection through the theorem: the row of the first block generalises the row of the second one
+  have hex : ∃ bk ∈ mkBuckets (nonshared_fa.map mkBlk), ∃ bi ∈ bk.2, ∃ bj ∈ bk.2, bi ≠ bj ∧ genPair_fa bk.2 bi bj = true := by
+    have : (mkBuckets (nonshared_fa.map mkBlk)).any (fun bk => bk.2.any (fun bi => bk.2.any (fun bj =>
+        decide (bi ≠ bj) && genPair_fa bk.2 bi bj))) = true := by with_unfolding_all decide
+    simp only [List.any_eq_true, Bool.and_eq_true, decide_eq_true_eq] at this
+    obtain ⟨bk, hbk, bi, hbi, bj, hbj, hne, hg⟩ := this
+    exact ⟨bk, hbk, bi, hbi, bj, hbj, hne, hg⟩
+  obtain ⟨bk, hbk, bi, hbi, bj, hbj, hne, hg⟩ := hex
+  obtain ⟨id, hid, _⟩ := C03_flat_rejects_indistinguishable nonshared_fa hn hwf bk hbk bi bj hbi hbj hne hg
+  exact ⟨id, hid⟩
+
+/-- **Counterexample: a lone block needs a binding.** `impl<T> Kita for T {}` alone: the pair condition is vacuous,
+    but the candidate filter drops a family without any associated-type binding (`is_empty` after
+    `prune_non_assoc`), so the macro rejects the invocation with "Unable to form impl group". -/
+theorem C03_flat_lone_block_counterexample :
+    noNesting [blockOf_fa []] = true ∧ flatWF [blockOf_fa []] = true ∧
+    (mkBuckets ([blockOf_fa []].map mkBlk)).all (fun bk => distPairs_fa bk.2) = true ∧
+    ∃ id, parseGroups [blockOf_fa []] = .unableToForm id := by
+  have hn : noNesting [blockOf_fa []] = true := by with_unfolding_all decide
+  have hwf : flatWF [blockOf_fa []] = true := by with_unfolding_all decide
+  refine ⟨hn, hwf, by with_unfolding_all decide, ?_⟩
+  have hex : ∃ bk ∈ mkBuckets ([blockOf_fa []].map mkBlk), hasColumn_fa bk.2 = false := by
+    have : (mkBuckets ([blockOf_fa []].map mkBlk)).any (fun bk => !hasColumn_fa bk.2) = true := by
+      with_unfolding_all decide
+    simpa [List.any_eq_true] using this
+  obtain ⟨bk, hbk, hc⟩ := hex
+  obtain ⟨id, hid, _⟩ := C03_flat_rejects_no_binding _ hn hwf bk hbk hc
+  exact ⟨id, hid⟩
+
+/-- **Counterexample: different payloads are not enough, neither may generalise the other.** `Group = Vec<U>` (with
+    `U` a parameter of the block) and `Group = Vec<u32>` are different payloads, and the second does not generalise
+    the first, but the first generalises the second: the rows are not separated and the macro rejects. -/
+theorem C03_flat_generalising_payload_counterexample :
+    noNesting generalising_fa = true ∧ flatWF generalising_fa = true ∧
+    -- the two blocks' folded rows: one key each, `Group = Vec<_ŠČ1>` and `Group = Vec<u32>`
+    (generalising_fa.map mkBlk).map (fun b => (otherFold b).map (fun e => e.2)) =
+      [[[("Group", vecOf (.tparam "_ŠČ1"))]], [[("Group", vecOf (tyPath [seg "u32"]))]]] ∧
+    vecOf (.tparam "_ŠČ1") ≠ vecOf (tyPath [seg "u32"]) ∧
+    supYes (vecOf (tyPath [seg "u32"])) (vecOf (.tparam "_ŠČ1")) = false ∧
+    supYes (vecOf (.tparam "_ŠČ1")) (vecOf (tyPath [seg "u32"])) = true ∧
+    (mkBuckets (generalising_fa.map mkBlk)).all (fun bk => separatedB bk.2) = false ∧
+    ∃ id, parseGroups generalising_fa = .unableToForm id := by
+  have hn : noNesting generalising_fa = true := by with_unfolding_all decide
+  have hwf : flatWF generalising_fa = true := by with_unfolding_all decide
+  have hs : (mkBuckets (generalising_fa.map mkBlk)).all (fun bk => separatedB bk.2) = false := by
+    with_unfolding_all decide
+  refine ⟨hn, hwf, by with_unfolding_all decide, by decide, by decide, by decide, hs, ?_⟩
+  cases hr : parseGroups generalising_fa with
+  | ok g =>
+    have := (C03_flat_acceptance_exact generalising_fa hn hwf).1 ⟨g, hr⟩
+    rw [← List.all_eq_true, hs] at this
+    cases this
+  | unableToForm id => exact ⟨id, rfl⟩
+  | panic e => exact absurd hr ((parseGroups_flat_kinds generalising_fa (by simpa [noNesting] using hn) hwf).2.2 e)
+
+/-- `distinguishedB` is sufficient, not necessary: two blocks that each leave the other's bound associated type
+    unconstrained (`Group = GroupA` and no `Kind`, versus no `Group` and `Kind = X`) are separated — neither row
+    generalises the other, a binding never generalises a missing one — and the macro accepts them, although no
+    associated type is bound by both. (Such blocks overlap semantically; that is C04's subject.) -/
+theorem C03_flat_separated_not_distinguished_example :
+    noNesting wildcards_fa = true ∧ flatWF wildcards_fa = true ∧
+    (mkBuckets (wildcards_fa.map mkBlk)).all (fun bk => distinguishedB bk.2) = false ∧
+    ∃ g, parseGroups wildcards_fa = .ok g := by
+  have hn : noNesting wildcards_fa = true := by with_unfolding_all decide
+  have hwf : flatWF wildcards_fa = true := by with_unfolding_all decide
+  refine ⟨hn, hwf, by with_unfolding_all decide, (C03_flat_acceptance_exact wildcards_fa hn hwf).2 ?_⟩
+  have : flatSeparated wildcards_fa = true := by with_unfolding_all decide
+  simpa [flatSeparated, List.all_eq_true] using this
+
+/-- non-vacuity of `C03_flat_accepts_weak` outside `flatWF`: a lone block under a header on which the matcher itself
+    panics (a synthetic header containing a `Pat::Struct` node; its bucket is never compared with itself) next to an
+    ordinary family -/
+example :
+    let weird : T := .node "Type::Slice" [] [.node "Pat::Struct" [] []]
+    let items := [blockSelf "GroupA" weird, blockSelf "GroupA" (vecOf tT), blockSelf "GroupB" (vecOf tT)]
+    flatWF items = false ∧ ∃ g, parseGroups items = .ok g ∧ g.length = 2 := by
+  intro weird items
+  have hn : noNesting items = true := by with_unfolding_all decide
+  have hwf : flatWF0 items = true := by with_unfolding_all decide
+  have hd : (mkBuckets (items.map mkBlk)).all (fun bk => !bucketPanics bk && distinguishedB bk.2) = true := by
+    with_unfolding_all decide
+  have hl : (mkBuckets (items.map mkBlk)).length = 2 := by with_unfolding_all decide
+  obtain ⟨g, hg, hs⟩ := C03_flat_accepts_weak items hn hwf (by
+    simp only [List.all_eq_true, Bool.and_eq_true, Bool.not_eq_true'] at hd
+    exact hd)
+  refine ⟨by with_unfolding_all decide, g, hg, ?_⟩
+  have := congrArg List.length hs
+  simp only [List.length_map] at this
+  rw [this, hl]
+
+/-- non-vacuity of `C03_distinguishedB_spec`, `C03_distinguishedB_of_pairs`, `C03_separatedB_is_filter` and
+    `C03_distinguished_separated`: the bucket of the three-block example -/
+example : ∃ blks : List Blk, blks.length = 3 ∧ (∀ b ∈ blks, wfBlk b = true) ∧ blks.Nodup ∧
+    distinguishedB blks = true ∧ separatedB blks = true ∧ accOK blks = true ∧
+    (∀ bi ∈ blks, ∀ bj ∈ blks, bi ≠ bj → ∃ e ∈ otherFold bi, hasKey blks e.1 = true ∧
+      ∃ a p q, cell bi (e.1, a) = some p ∧ cell bj (e.1, a) = some q ∧ supYes p q = false ∧ supYes q p = false) := by
+  let b0 := mkBlk (blockOf_fa [traitBound (dispatch "GroupA"), traitBound (otherTr "X")])
+  let b1 := mkBlk (blockOf_fa [traitBound (otherTr "Y"), traitBound (dispatch "GroupB")])
+  let b2 := mkBlk (blockOf_fa [traitBound (dispatch "GroupC")])
+  let blks := [b0, b1, b2]
+  have hw : ∀ b ∈ blks, wfBlk b = true := by
+    have : blks.all wfBlk = true := by with_unfolding_all decide
+    simpa [List.all_eq_true] using this
+  have hnd : blks.Nodup := by with_unfolding_all decide
+  have hp : distPairs_fa blks = true := by with_unfolding_all decide
+  have h01 : b0 ≠ b1 := by with_unfolding_all decide
+  have hd : distinguishedB blks = true :=
+    C03_distinguishedB_of_pairs blks b0 b1 (by simp [blks]) (by simp [blks]) h01 hp
+  have hs := C03_distinguished_separated blks hd
+  refine ⟨blks, rfl, hw, hnd, hd, hs, ?_, ((C03_distinguishedB_spec blks hw).1 hd).2⟩
+  rw [C03_separatedB_is_filter blks (by simp [blks]) hw hnd]
+  exact hs
+
+/-- non-vacuity of `C03_sup_yes_unifiable`: `Vec<_ŠČ1>` generalises `Vec<u32>` (the payloads of
+    `generalising_fa`) -/
+example : ∃ σ, wf (vecOf (.tparam "_ŠČ1")) = true ∧ wf (vecOf (tyPath [seg "u32"])) = true ∧
+    ignFaces (vecOf (.tparam "_ŠČ1")) (stripTop (vecOf (tyPath [seg "u32"]))) = true ∧
+    sup (vecOf (.tparam "_ŠČ1")) (vecOf (tyPath [seg "u32"])) = .yes σ false :=
+  ⟨[("_ŠČ1", .ty (tyPath [seg "u32"]))], by decide, by decide, by decide, by decide⟩
+
+/-- non-vacuity of `C03_nonunifiable_distinguishes`: the payloads `GroupA`, `GroupB` of the README example are closed
+    and different, hence not unifiable; the theorem (not a computation of `sup`) yields the cell condition -/
+example : sepCell_fa (mkBlk (blockFor "GroupA")) (mkBlk (blockFor "GroupB"))
+    ((.tparam "_ŠČ0", dispatch "GroupA"), "Group") = true := by
+  apply C03_nonunifiable_distinguishes _ _ _ (tyPath [seg "GroupA"]) (tyPath [seg "GroupB"])
+    (by with_unfolding_all decide) (by with_unfolding_all decide) (by with_unfolding_all decide)
+  rintro ⟨θ₁, θ₂, h⟩
+  rw [inst_closed θ₁ _ (by decide), inst_closed θ₂ _ (by decide)] at h
+  revert h
+  decide
+
+/-- non-vacuity of `C03_flat_accepts_nonunifiable` and `C03_closed_payloads_nonunifiable`: the README example; its
+    payloads `GroupA`, `GroupB` are closed and different, and the theorems (no evaluation of the matcher on the
+    payloads) yield the acceptance -/
+example : ∃ g, parseGroups [blockFor "GroupA", blockFor "GroupB"] = .ok g := by
+  let b1 := mkBlk (blockFor "GroupA")
+  let b2 := mkBlk (blockFor "GroupB")
+  let k1 : BKey := (.tparam "_ŠČ0", dispatch "GroupA")
+  let k2 : BKey := (.tparam "_ŠČ0", dispatch "GroupB")
+  have hb : mkBuckets ([blockFor "GroupA", blockFor "GroupB"].map mkBlk) = [(groupIdOf b1.item, [b1, b2])] := by
+    with_unfolding_all decide
+  have hnu : ¬ ∃ θ₁ θ₂ : Subst, erase (inst θ₁ (tyPath [seg "GroupA"])) = erase (inst θ₂ (tyPath [seg "GroupB"])) :=
+    C03_closed_payloads_nonunifiable _ _ (by decide) (by decide) (by decide)
+  have hnu' : ¬ ∃ θ₁ θ₂ : Subst, erase (inst θ₁ (tyPath [seg "GroupB"])) = erase (inst θ₂ (tyPath [seg "GroupA"])) :=
+    C03_closed_payloads_nonunifiable _ _ (by decide) (by decide) (by decide)
+  obtain ⟨g, hg, _⟩ := C03_flat_accepts_nonunifiable [blockFor "GroupA", blockFor "GroupB"]
+    (by with_unfolding_all decide) (by with_unfolding_all decide) (by
+      intro bk hbk
+      rw [hb] at hbk
+      simp only [List.mem_singleton] at hbk
+      subst hbk
+      refine ⟨by with_unfolding_all decide, fun bi hbi bj hbj hne => ?_⟩
+      simp only [List.mem_cons, List.mem_nil_iff, or_false] at hbi hbj
+      rcases hbi with rfl | rfl <;> rcases hbj with rfl | rfl
+      · exact absurd rfl hne
+      · exact ⟨(k1, [("Group", tyPath [seg "GroupA"])]), by with_unfolding_all decide, by with_unfolding_all decide,
+          "Group", tyPath [seg "GroupA"], tyPath [seg "GroupB"], by with_unfolding_all decide,
+          by with_unfolding_all decide, by with_unfolding_all decide, hnu⟩
+      · exact ⟨(k2, [("Group", tyPath [seg "GroupB"])]), by with_unfolding_all decide, by with_unfolding_all decide,
+          "Group", tyPath [seg "GroupB"], tyPath [seg "GroupA"], by with_unfolding_all decide,
+          by with_unfolding_all decide, by with_unfolding_all decide, hnu'⟩
+      · exact absurd rfl hne)
+  exact ⟨g, hg⟩
+
+/-- non-vacuity of `C03_flat_rejects_first`: the `Vec<T>` bucket is fine, the `Box<T>` bucket holds two blocks with
+    the same binding (the second has an extra, unused parameter); the error names the `Box<T>` header -/
+example :
+    let items := [blockSelf "GroupA" (vecOf tT), blockSelf "GroupA" (boxOf tT), blockSelf "GroupB" (vecOf tT),
+      blockSelf2 "GroupA" (boxOf tT)]
+    parseGroups items = .unableToForm (groupIdOf (mkBlk (blockSelf "GroupA" (boxOf tT))).item) := by
+  intro items
+  have hn : noNesting items = true := by with_unfolding_all decide
+  have hwf : flatWF items = true := by with_unfolding_all decide
+  have hb : ∃ bk1 bk2, mkBuckets (items.map mkBlk) = [bk1] ++ bk2 :: [] ∧ separatedB bk1.2 = true ∧
+      separatedB bk2.2 = false ∧ bk2.1 = groupIdOf (mkBlk (blockSelf "GroupA" (boxOf tT))).item := by
+    have : (match mkBuckets (items.map mkBlk) with
+      | [bk1, bk2] => separatedB bk1.2 && !separatedB bk2.2 &&
+          bk2.1 == groupIdOf (mkBlk (blockSelf "GroupA" (boxOf tT))).item
+      | _ => false) = true := by with_unfolding_all decide
+    revert this
+    generalize mkBuckets (items.map mkBlk) = L
+    intro this
+    match L, this with
+    | [bk1, bk2], this =>
+      simp only [Bool.and_eq_true, Bool.not_eq_true', beq_iff_eq] at this
+      exact ⟨bk1, bk2, rfl, this.1.1, this.1.2, this.2⟩
+  obtain ⟨bk1, bk2, hsplit, h1, h2, hid⟩ := hb
+  rw [← hid]
+  exact C03_flat_rejects_first items hn hwf [bk1] [] bk2 hsplit
+    (fun b hb => by simp only [List.mem_singleton] at hb; subst hb; exact h1) h2
+
+/-- non-vacuity of `C03_flat_conditions_order_free`: the three-block bucket and a rotation of it -/
+example :
+    let b0 := mkBlk (blockOf_fa [traitBound (dispatch "GroupA"), traitBound (otherTr "X")])
+    let b1 := mkBlk (blockOf_fa [traitBound (otherTr "Y"), traitBound (dispatch "GroupB")])
+    let b2 := mkBlk (blockOf_fa [traitBound (dispatch "GroupC")])
+    distinguishedB [b2, b0, b1] = true := by
+  intro b0 b1 b2
+  rw [← (C03_flat_conditions_order_free [b0, b1, b2] [b2, b0, b1]
+    (List.perm_append_comm (l₁ := [b0, b1]) (l₂ := [b2]))).1]
+  with_unfolding_all decide
+
+/-- non-vacuity of `C03_clash_nonunifiable`: the README payloads, and a generic payload `Vec<_ŠČ1>` against `u32` -/
+example : clash_fa (tyPath [seg "GroupA"]) (tyPath [seg "GroupB"]) = true ∧
+    clash_fa (vecOf (.tparam "_ŠČ1")) (tyPath [seg "u32"]) = true ∧
+    clash_fa (vecOf (.tparam "_ŠČ1")) (vecOf (tyPath [seg "u32"])) = false := by decide
+
+/-- non-vacuity of `C03_flat_accept_pre_order_free`: the reversed three-block example is accepted, by the theorems -/
+example : ∃ g, parseGroups flat3_fa.reverse = .ok g := by
+  have hpre : flatAcceptPre flat3_fa = true := by
+    obtain ⟨h1, h2, h3, _⟩ := C03_flat_three_blocks_pre
+    simp only [flatAcceptPre, flatDistinguished, Bool.and_eq_true, List.all_eq_true]
+    exact ⟨⟨h1, h2⟩, h3⟩
+  obtain ⟨g, hg, _⟩ := C03_flat_accepts_exec _
+    (C03_flat_accept_pre_order_free flat3_fa flat3_fa.reverse (List.reverse_perm _).symm hpre)
+  exact ⟨g, hg⟩
+
+end FlatAcceptExamples
 
 end DI
